@@ -536,8 +536,19 @@ class NodeTable:
                                 "cls.mapper_method found")
         parts = text_parts(found)
         core = [p_ for p_ in (parts or []) if p_[0] != "const"]
-        if parts is None or len(core) != 1:
-            raise AnalysisError("mapper_method derivation idiom not recognised")
+        if parts is None or len(core) != 1 or not self._shape_known(core[0]):
+            # not the spelling known: the statements that compute the stored
+            # value are interpreted for a class of a given name
+            self._derive = self._derivation_by_interpretation(prim, fn, rx)
+            self.derivation_from_name = True
+            self.derivation_source = "cls.__name__"
+            self.derivation_line = fn.lineno
+            self.replaces_inherited = guarded
+            if not guarded:
+                raise AnalysisError(
+                    "cls.mapper_method is assigned on a path that has not "
+                    "established \"'mapper_method' not in cls.__dict__\"")
+            return rx, None
         i = parts.index(core[0])
         prefix = "".join(p_[1] for p_ in parts[:i])
         suffix = "".join(p_[1] for p_ in parts[i + 1:])
@@ -569,7 +580,91 @@ class NodeTable:
                 "established \"'mapper_method' not in cls.__dict__\"")
         return rx, None
 
+    @staticmethod
+    def _shape_known(c):
+        if c[0] == "call" and len(c) >= 5 and c[4][0] == "recv" and \
+                c[4][2] == "lower" and not c[2]:
+            c = c[4][1]
+        return (c[0] == "call" and c[1] == "_CAMEL_TO_SNAKE_RE.sub"
+                and len(c[2]) == 2 and c[2][0][0] == "const")
+
+    def _derivation_by_interpretation(self, prim, fn, rx):
+        """-> name -> handler name, by interpreting (pv/absint.py) the
+        backward slice of the value stored into cls.mapper_method for a class
+        object that has that __name__ (the compiled pattern is Python's own
+        `re` on the literal read from the source; nothing of the repository
+        runs)"""
+        from .absint import Interp, Obj, Opaque, Raised, StepBound, module_env
+        cls_p = fn.args.args[0].arg
+        target = None
+        for st in ast.walk(fn):
+            tg = None
+            if isinstance(st, ast.Assign) and len(st.targets) == 1:
+                tg, val = st.targets[0], st.value
+            elif isinstance(st, ast.Expr) and isinstance(st.value, ast.Call) \
+                    and ast.unparse(st.value.func) in (
+                        "setattr", "type.__setattr__") and \
+                    len(st.value.args) == 3 and isinstance(
+                        st.value.args[1], ast.Constant) and \
+                    st.value.args[1].value == "mapper_method":
+                target = st.value.args[2]
+                continue
+            if isinstance(tg, ast.Attribute) and tg.attr == "mapper_method":
+                target = val
+        if target is None:
+            raise AnalysisError("mapper_method derivation idiom not recognised")
+        # the simple local definitions the value depends on, in source order
+        defs = [st for st in ast.walk(fn) if isinstance(st, ast.Assign)
+                and len(st.targets) == 1 and isinstance(st.targets[0], ast.Name)]
+        defs.sort(key=lambda st: st.lineno)
+        need = {x.id for x in ast.walk(target) if isinstance(x, ast.Name)}
+        chain = []
+        for st in reversed(defs):
+            if st.targets[0].id in need and st.lineno < target.lineno:
+                chain.append(st)
+                need |= {x.id for x in ast.walk(st.value)
+                         if isinstance(x, ast.Name)}
+        chain.reverse()
+        glob = module_env(prim.tree, {})
+        glob["_CAMEL_TO_SNAKE_RE"] = rx
+        glob["intern"] = lambda s_: s_
+        glob["sys"] = Opaque("module sys")
+
+        def attrs(it, node, base, attr):
+            if isinstance(base, Opaque) and base.what == "module sys" and \
+                    attr == "intern":
+                return lambda s_: s_
+            if base is rx and attr in ("sub", "split", "findall", "subn"):
+                return getattr(rx, attr)
+            return Opaque(ast.unparse(node))
+
+        def derive(name):
+            it = Interp(globals_=glob, attrs=attrs, max_steps=3000,
+                        calls={"intern": lambda it_, nd, a, k: a[0],
+                               "sys.intern": lambda it_, nd, a, k: a[0]})
+            env = dict(glob)
+            env[cls_p] = Obj("__class__", {"__name__": name,
+                                           "__qualname__": name})
+            try:
+                for st in chain:
+                    env[st.targets[0].id] = it.eval(st.value, env)
+                v = it.eval(target, env)
+            except (Raised, StepBound) as e:
+                raise AnalysisError("mapper_method derivation: interpreting "
+                                    f"it for '{name}' fails ({e!r})")
+            if not isinstance(v, str):
+                raise AnalysisError("mapper_method derivation: not a string "
+                                    f"for '{name}' ({v!r})")
+            return v
+        # the function must behave like a name derivation on a probe
+        probe = derive("ProbeNodeClass")
+        if not isinstance(probe, str) or not probe:
+            raise AnalysisError("mapper_method derivation idiom not recognised")
+        return derive
+
     def derive_mapper_method(self, clsname: str) -> str:
+        if getattr(self, "_derive", None) is not None:
+            return self._derive(clsname)
         s = self._camel_re.sub(self._sep, clsname)
         if self._lower:
             s = s.lower()
